@@ -67,7 +67,8 @@ type model struct {
 	err   bool
 }
 
-var markerRe = regexp.MustCompile(`@@thriftgo_insertion_point\([$.0-9a-zA-Z_]*\)`)
+// a marker is what plugin.InsertionPoint(names...) writes; the names are up to the plugin author
+var markerRe = regexp.MustCompile(`@@thriftgo_insertion_point\([^()]*\)`)
 
 func (m *model) byName(n string) *mFile {
 	for _, f := range m.files {
@@ -238,13 +239,13 @@ func checkHistory(h history) (class, what string, terminal bool) {
 
 func alphabet() (files, patches, named []Item) {
 	x, y := mk("x"), mk("y")
-	contents := []string{"plain", "h" + x + "t", x + "m" + y + "m" + x, "other"}
+	contents := []string{"plain", "h" + x + "t", x + "m" + y + "m" + x, "other", "o" + mk("p-1 q") + "o"}
 	for _, n := range []string{"A.go", "A_1.go", "B.txt"} {
 		for _, c := range contents {
 			files = append(files, Item{Name: n, Content: c})
 		}
 	}
-	for _, ip := range []string{"x", "y", "z"} {
+	for _, ip := range []string{"x", "y", "z", "p-1 q"} {
 		for _, c := range []string{"P", "Q"} {
 			patches = append(patches, Item{IP: ip, Content: c})
 		}
